@@ -15,7 +15,7 @@ GROUPS = [
  _t("type_sync_cycle", "COTSyncCycle", "co_sync_cycle.c", 4, 4, 0, "(idx)==0x1006u&&(sub)==0", {"C16": "quick", "C06": "quick", "C01": "quick"}, ["a", "b", "c"]),
  _t("type_emcy_id", "COTEmcyId", "co_emcy_id.c", 4, 4, 0, "(idx)==0x1014u&&(sub)==0", {"C15": "quick", "C06": "quick", "C01": "quick"}, ["a", "b", "c"]),
  _t("type_para_store", "COTParaStore", "co_para_store.c", 4, 1, 1, None, {"C17": "quick", "C06": "quick", "C01": "quick"}, ["a", "b"]),
- _t("type_para_restore", "COTParaRestore", "co_para_restore.c", 4, 1, 2, None, {"C17": "quick", "C06": "quick", "C01": "quick"}, ["a", "b"]),
+ _t("type_para_restore", "COTParaRestore", "co_para_restore.c", 4, 1, 2, "(idx)==0x1011u&&(sub)<=0x7Fu", {"C17": "quick", "C06": "quick", "C01": "quick"}, ["a", "b"]),
 ]
 GROUPS += [
  _t("type_hb_prod", "COTNmtHbProd", "co_hb_prod.c", 2, 2, 0, None, {"C10": "quick", "C06": "quick", "C01": "quick"}, ["a", "b"]),
